@@ -403,3 +403,10 @@ Definition loky_folder_used (key_has_tf new_mgr_on_reuse : bool) (prev given : Z
    (otherwise the backward-compatibility branch of BatchedCalls.__init__ makes n_jobs None). *)
 Definition batch_njobs_in_worker (keeps pickled : bool) (nested_njobs : option Z) : option Z :=
   if pickled && negb keeps then None else nested_njobs.
+
+(* ------------------------------------------------------------ where mmap_mode is USED
+   The mode of the memmap a worker really receives for an array above max_nbytes: the resolved mmap_mode (codes of the check:
+   1 'r', 2 'r+', 3 'w+', 4 'c') if the pool / executor hands it on to the reducers [passes], with 'w+' coerced to 'r+' on
+   unpickling (documented); otherwise the reducers' own default 'r'. *)
+Definition worker_mmap_mode (passes : bool) (resolved : Z) : Z :=
+  if passes then (if resolved =? 3 then 2 else resolved) else 1.
